@@ -112,6 +112,11 @@ func c01(c *core.Ctx, r *core.Report) {
 		check(runner, "Metrics.RecordIterationResult", isMetricsIter)
 		drops := dropRecorderFns(c, r, runner)
 		for _, fn := range drops {
+			if cnt, _ := bulkDropRecorder(c, fn); cnt != nil {
+				// n drops in one call: one metric sample per pass of a loop bounded by n, and n added to the progress count
+				r.OK(core.FuncName(fn)+"#bulk", c.Pos(fn.Pos()), "records %s drops per call: one metric sample per pass of a loop bounded by it and the same number in the progress count", an.D().Of(cnt))
+				continue
+			}
 			check(fn, "Stats.Record", isStatsRecord)
 			check(fn, "Metrics.RecordIterationResult", isMetricsIter)
 		}
@@ -544,6 +549,20 @@ func c01(c *core.Ctx, r *core.Report) {
 				r.OK(key, an.Pos(c, op.Call), "Load")
 			case "Add":
 				k, ok := op.Call.Common().Args[1].(*ssa.Const)
+				if !ok && bulkAdd(c, op.Fn) {
+					// the bulk form: every caller is a recorder of several drops handing on its count
+					sites := an.CallSitesOf(c, op.Fn)
+					allBulk := len(sites) > 0
+					for _, cs := range sites {
+						if cnt, _ := bulkDropRecorder(c, an.Outermost(cs.Parent())); cnt == nil {
+							allBulk = false
+						}
+					}
+					if allBulk {
+						r.OK(key, an.Pos(c, op.Call), "Add(n) for the n drops a bulk recorder was given (every caller is one)")
+						continue
+					}
+				}
 				r.Check(ok && k.Value != nil && k.Uint64() == 1, key, an.Pos(c, op.Call), "Add(1)", "dropped counter changed by "+an.D().Of(op.Call.Common().Args[1])+" instead of 1")
 			default:
 				r.Violation(key, an.Pos(c, op.Call), "%s on the dropped counter: it must only grow by one per reported drop", op.Op)
@@ -1029,4 +1048,166 @@ func fieldOfClass(class string) string {
 		return class[i+1:]
 	}
 	return class
+}
+
+// ---- recording several drops in one call ----
+
+// countedLoopBound: the call sits in a loop that makes one pass per unit of a bound — `for range n`, `for i := 0; i < n;
+// i++` — with exactly one execution of the call per pass; the bound value is returned (conversions stripped).
+func countedLoopBound(call ssa.CallInstruction) (ssa.Value, bool) {
+	loop, head := an.NaturalLoopOf(call.Block())
+	if loop == nil || an.OnCycleAvoiding(call, head) {
+		return nil, false
+	}
+	// no condition inside the pass decides whether the call runs
+	for _, g := range an.GuardsOf(call.Block()) {
+		if loop[g.If.Block()] {
+			exits := false
+			for _, s := range g.If.Block().Succs {
+				if !loop[s] {
+					exits = true
+				}
+			}
+			if !exits {
+				return nil, false
+			}
+		}
+	}
+	var bound ssa.Value
+	ok := true
+	see := func(cond ssa.Value) {
+		bo, isBin := cond.(*ssa.BinOp)
+		if !isBin || bo.Op != token.LSS {
+			ok = false
+			return
+		}
+		// counter (or counter+1, or the constant 0 of the entry test) < bound
+		switch x := bo.X.(type) {
+		case *ssa.Phi:
+		case *ssa.BinOp:
+			if x.Op != token.ADD {
+				ok = false
+			}
+		case *ssa.Const:
+			if x.Value == nil || x.Int64() != 0 {
+				ok = false
+			}
+		default:
+			ok = false
+		}
+		b := bo.Y
+		for {
+			if cv, isCv := b.(*ssa.Convert); isCv {
+				b = cv.X
+				continue
+			}
+			break
+		}
+		if bound == nil {
+			bound = b
+		} else if bound != b {
+			ok = false
+		}
+	}
+	for b := range loop {
+		if iff, isIf := b.Instrs[len(b.Instrs)-1].(*ssa.If); isIf && loop[b.Succs[0]] != loop[b.Succs[1]] {
+			see(iff.Cond)
+		}
+	}
+	for _, p := range head.Preds {
+		if loop[p] {
+			continue
+		}
+		if iff, isIf := p.Instrs[len(p.Instrs)-1].(*ssa.If); isIf {
+			if bo, isBin := iff.Cond.(*ssa.BinOp); isBin && bo.Op == token.LSS {
+				if k, isK := bo.X.(*ssa.Const); isK && k.Value != nil && k.Int64() == 0 {
+					see(iff.Cond)
+				}
+			}
+		}
+	}
+	return bound, ok && bound != nil
+}
+
+// bulkAdd: f's body adds its own (single, unsigned integer) parameter to the dropped counter, once, unconditionally.
+func bulkAdd(c *core.Ctx, f *ssa.Function) bool {
+	if f == nil || f.Blocks == nil || len(f.Blocks) != 1 || f.Signature.Params().Len() != 1 {
+		return false
+	}
+	n := 0
+	for _, op := range an.AtomicOps([]*ssa.Function{f}) {
+		fa, ok := op.Call.Common().Args[0].(*ssa.FieldAddr)
+		if !ok || !an.IsNamed(fa.X.Type(), progressPkg, "Stats") || op.Op != "Add" {
+			return false
+		}
+		if an.Strip(op.Call.Common().Args[1]) != ssa.Value(f.Params[len(f.Params)-1]) {
+			return false
+		}
+		n++
+	}
+	return n == 1
+}
+
+// bulkDropRecorder: fn(n) records n dropped iterations in one call — the metric sample once per pass of a loop bounded
+// by n, and the progress count either likewise or by one call of a function that adds n to the dropped counter; with
+// n ≤ 0 nothing is recorded. The count parameter is returned.
+func bulkDropRecorder(c *core.Ctx, fn *ssa.Function) (*ssa.Parameter, string) {
+	var cnt *ssa.Parameter
+	for _, p := range fn.Params {
+		if isIntType(p.Type()) {
+			if cnt != nil {
+				return nil, "more than one integer parameter"
+			}
+			cnt = p
+		}
+	}
+	if cnt == nil {
+		return nil, "no count parameter"
+	}
+	isCnt := func(v ssa.Value) bool {
+		for {
+			if cv, ok := v.(*ssa.Convert); ok {
+				v = cv.X
+				continue
+			}
+			break
+		}
+		return v == ssa.Value(cnt)
+	}
+	nMetric, nProgress := 0, 0
+	for _, call := range an.AllCalls(fn) {
+		t := an.Callee(call)
+		switch {
+		case t != nil && (isMetricsIter(t) || isStatsRecord(t)):
+			b, ok := countedLoopBound(call)
+			if !ok || !isCnt(b) {
+				return nil, "a record that is not made once per pass of a loop bounded by the count"
+			}
+			if isMetricsIter(t) {
+				nMetric++
+			} else {
+				nProgress++
+			}
+		case t != nil && bulkAdd(c, t):
+			if an.InLoop(call) || !isCnt(call.Common().Args[len(call.Common().Args)-1]) {
+				return nil, "the bulk count handed to " + core.FuncName(t) + " is not the count parameter, or the call repeats"
+			}
+			// on every path where anything is recorded
+			nProgress++
+		case t != nil && core.InModule(t) && len(an.FlatCalls(t, flatDepth, func(_ ssa.CallInstruction, g *ssa.Function) bool {
+			return g != nil && (isMetricsIter(g) || isStatsRecord(g))
+		})) > 0:
+			// a per-drop recorder called once per pass
+			b, ok := countedLoopBound(call)
+			if !ok || !isCnt(b) {
+				return nil, "a per-drop recorder that is not called once per pass of a loop bounded by the count"
+			}
+			nMetric++
+			nProgress++
+		}
+	}
+	if nMetric != 1 || nProgress != 1 {
+		return nil, sprintf("%d metric and %d progress recordings (expected one of each)", nMetric, nProgress)
+	}
+	return cnt, ""
 }
